@@ -169,10 +169,26 @@ __CPROVER_ensures(g_check_calls == __CPROVER_old(g_check_calls) + (run_check ? 1
 #ifndef NATIVE_REPLAY
 IMB_MGR *nondet_mgrp(void);
 int nondet_int(void);
+IMB_JOB nondet_job(void);
+unsigned nondet_unsigned(void);
+
+/* statics are zero-initialised in CBMC: give the two tracked slots arbitrary contents */
+static IMB_MGR *
+arbitrary_ring(void)
+{
+        g_slot_n = nondet_job();
+        g_slot_e = nondet_job();
+        g_e = nondet_unsigned();
+        g_n = nondet_unsigned();
+        g_empty = nondet_int();
+        g_submit_new_calls = nondet_unsigned();
+        g_complete_calls = nondet_unsigned();
+        g_check_calls = nondet_unsigned();
+        return nondet_mgrp();
+}
 
 #ifdef LEMMA_REAL_JOBS
 /* lemma on the REAL JOBS(): for every slot k the byte-offset form is the typed slot pointer */
-unsigned nondet_unsigned(void);
 void
 h_jobs_lemma(void)
 {
@@ -188,9 +204,9 @@ h_jobs_lemma(void)
 }
 #endif
 
-void h_get_next_job(void) { IMB_MGR *st = nondet_mgrp(); (void) GET_NEXT_JOB(st); }
-void h_queue_size(void) { IMB_MGR *st = nondet_mgrp(); (void) QUEUE_SIZE(st); }
-void h_get_completed_job(void) { IMB_MGR *st = nondet_mgrp(); (void) GET_COMPLETED_JOB(st); }
-void h_flush_job(void) { IMB_MGR *st = nondet_mgrp(); (void) FLUSH_JOB(st); }
-void h_submit_job(void) { IMB_MGR *st = nondet_mgrp(); (void) submit_job_and_check(st, nondet_int()); }
+void h_get_next_job(void) { IMB_MGR *st = arbitrary_ring(); (void) GET_NEXT_JOB(st); }
+void h_queue_size(void) { IMB_MGR *st = arbitrary_ring(); (void) QUEUE_SIZE(st); }
+void h_get_completed_job(void) { IMB_MGR *st = arbitrary_ring(); (void) GET_COMPLETED_JOB(st); }
+void h_flush_job(void) { IMB_MGR *st = arbitrary_ring(); (void) FLUSH_JOB(st); }
+void h_submit_job(void) { IMB_MGR *st = arbitrary_ring(); (void) submit_job_and_check(st, nondet_int()); }
 #endif
